@@ -28,7 +28,7 @@ var pureLibs = map[string]bool{
 	"protowire.ParseError": true, "time.Now": true, "strings.ToLower": true, "strings.ToUpper": true,
 	"strconv.FormatInt": true, "strconv.Itoa": true, "(*status.Status).Code": true, "(*status.Status).Message": true,
 	"(*status.Status).Proto": true, "(*status.Status).Err": true, "status.FromContextError": true,
-	"unicode.IsLetter": true, "unicode.IsNumber": true, "strings.Split": true, "strings.Join": true,
+	"unicode.IsLetter": true, "unicode.IsNumber": true, "strings.Join": true,
 	"strings.TrimSuffix": true, "strings.TrimPrefix": true, "strings.Cut": true, "strings.EqualFold": true,
 	"strings.ContainsRune": true, "textproto.CanonicalMIMEHeaderKey": true, "(http.Header).Get": true,
 	"(error).Error": true, "ssa:deferstack": true, "ssa:wrapnilchk": true,
@@ -120,8 +120,8 @@ func (c *FnCtx) execCall(st *State, in ssa.Instruction, cc *ssa.CallCommon) Val 
 		args = append(args, recv)
 	}
 	if !cc.IsInvoke() {
-		if mc := localClosure(cc.Value); mc != nil {
-			for _, b := range mc.Bindings {
+		if f, bindings := localClosure(cc.Value); f != nil {
+			for _, b := range bindings {
 				args = append(args, c.val(st, b))
 			}
 		}
@@ -272,8 +272,13 @@ func (c *FnCtx) callContract(st *State, in ssa.Instruction, cc *ssa.CallCommon, 
 		if nm == "" {
 			nm = fmt.Sprint(k)
 		}
-		c.oblige(st, "pre", fmt.Sprintf("%s#%d.%s", name, c.callOrd[name], nm), in.Pos(), env.evalBool(cl.E),
+		pc := env.evalBool(cl.E)
+		c.oblige(st, "pre", fmt.Sprintf("%s#%d.%s", name, c.callOrd[name], nm), in.Pos(), pc,
 			fmt.Sprintf("precondition of %s: %s", name, cl.Text), nil)
+		if pc == "false" {
+			// "requires false" marks a function that must never be called (it panics): nothing follows the call
+			c.assume(st, "false")
+		}
 	}
 	// recursion variant: calls inside a recursion cycle must decrease the measure
 	if callee := c.eng.funcs[name]; callee != nil && c.eng.reaches(callee, c.fn) {
